@@ -10,7 +10,8 @@ are never re-initialised), plus the way `DeepCopyMethod.deepcopy`
 Shared state (`Sys`):
 * `table`    — `copyreg.dispatch_table.get(ModuleType)`: absent, our pass-through
                reducer, or a foreign reducer installed by somebody else;
-* `orig`     — what the table held before the library was first used;
+* `orig`     — what the table held before the library was first used (or what another
+               library put there at a later quiescent point: step `external`);
 * `refcount`, `patched` — `_modules_copyable.refcount / patched_table`;
 * `depth[t]` — number of `with _modules_copyable():` blocks thread `t` is inside;
 * `failed[t]`— thread `t` saw an exception coming out of the protection machinery
@@ -85,7 +86,17 @@ def unwind (s : Sys) (t : Nat) : Nat → Sys
 
 inductive Step
   | enter (t : Nat) | exit (t : Nat) | copyModule (t : Nat) | raise (t : Nat)
+  /-- somebody else (another library) registers / removes its own reducer for modules
+  while no spec-classes copy is in progress -/
+  | external (foreign : Bool)
   deriving DecidableEq, Repr
+
+/-- The environment's move: only at a quiescent point. -/
+def externalStep (s : Sys) (foreign : Bool) : Sys :=
+  let o := if foreign then some Entry.foreign else none
+  { s with orig := o, table := o }
+
+def Sys.idle (s : Sys) : Bool := s.depth.all (· == 0)
 
 /-- Labelled transition; `none` = the step is not enabled. -/
 def step (s : Sys) : Step → Option Sys
@@ -93,6 +104,7 @@ def step (s : Sys) : Step → Option Sys
   | .exit t => if 0 < s.depthOf t then some (exitStep s t) else none
   | .copyModule t => if 0 < s.depthOf t then some (copyStep s t) else none
   | .raise t => if 0 < s.depthOf t then some (unwind s t (s.depthOf t)) else none
+  | .external f => if s.idle then some (externalStep s f) else none
 
 def run (s : Sys) : List Step → Option Sys
   | [] => some s
@@ -115,6 +127,8 @@ inductive Val
   | atom
   /-- a module -/
   | module
+  /-- a value whose deep copy raises (a lock, a generator, a `__deepcopy__` that raises) -/
+  | bad
   /-- any plain container (list, dict, tuple, set): copied element by element -/
   | list (xs : Vals)
   /-- a spec-class instance: class-level `do_not_copy`, attribute values with
@@ -142,6 +156,7 @@ mutual
 def deepI : Val → List Instr
   | .atom => []
   | .module => [Instr.copy]
+  | .bad => [Instr.raise]
   | .list xs => deepIs xs
   | .inst dnc as pc =>
     if dnc then [] else attrsI as ++ (if pc then [Instr.raise] else [])
@@ -155,6 +170,20 @@ def attrsI : Attrs → List Instr
 end
 
 def protectI (v : Val) : List Instr := wrapProtect v (deepI v)
+
+mutual
+/-- No module outside a spec instance: a bare `copy.deepcopy(v)` meets modules only
+inside `protect_via_deepcopy` blocks opened by `DeepCopyMethod.deepcopy`. -/
+def guardedV : Val → Bool
+  | .atom => true
+  | .module => false
+  | .bad => true
+  | .list xs => guardedVs xs
+  | .inst _ _ _ => true
+def guardedVs : Vals → Bool
+  | .nil => true
+  | .cons v vs => guardedV v && guardedVs vs
+end
 
 /-- One instruction of thread `t`; `false` = an exception left the operation
 (all open `with` blocks of the thread have been unwound). -/
@@ -176,10 +205,31 @@ def execSeq (t : Nat) : List Instr → Sys → Sys × Bool
     | (s', true) => execSeq t r s'
     | (s', false) => (s', false)
 
-/-- A history of copying operations by one thread. -/
-def execHistory (t : Nat) : List Val → Sys → Sys
+/-- One item of a single-threaded history. -/
+inductive HistOp
+  /-- `protect_via_deepcopy(v)` (constructor defaults, helpers, reset, ... all go through it) -/
+  | protect (v : Val)
+  /-- bare `copy.deepcopy(v)`; only `guardedV` values are the library's business -/
+  | deepcopy (v : Val)
+  /-- between two operations another library changes its own registration -/
+  | external (foreign : Bool)
+
+def histProg : HistOp → List Instr
+  | .protect v => protectI v
+  | .deepcopy v => if guardedV v then deepI v else []
+  | .external _ => []
+
+/-- A history of copying operations by one thread (aborted ones included). -/
+def execHistory (t : Nat) : List HistOp → Sys → Sys
   | [], s => s
-  | v :: vs, s => execHistory t vs (execSeq t (protectI v) s).1
+  | .external f :: r, s => execHistory t r (if s.idle then externalStep s f else s)
+  | op :: r, s => execHistory t r (execSeq t (histProg op) s).1
+
+/-- what the table should hold at the end: the last registration by the environment -/
+def expectedOrig (o : Option Entry) : List HistOp → Option Entry
+  | [] => o
+  | .external f :: r => expectedOrig (if f then some Entry.foreign else none) r
+  | _ :: r => expectedOrig o r
 
 /-! ## Replay of thread programs under a schedule (used by the driver) -/
 
